@@ -2100,6 +2100,7 @@ func (e *Extractor) extractPreserveLayout(fragments []text.TextFragment, pageWid
 		defaultCharsPerLine = 80  // Default width in characters
 		minCharsPerLine     = 40  // Minimum width
 		maxCharsPerLine     = 200 // Maximum width
+		maxBlankLines       = 100 // Most line breaks a vertical gap is shown with
 	)
 
 	// Calculate character width based on page width and desired output width
@@ -2213,6 +2214,12 @@ func (e *Extractor) extractPreserveLayout(fragments []text.TextFragment, pageWid
 			if gapInLines < 1 {
 				gapInLines = 1
 			}
+			// Positions are numbers written in the content stream: a
+			// fragment placed absurdly far away must not be answered with
+			// that many line breaks.
+			if gapInLines > maxBlankLines {
+				gapInLines = maxBlankLines
+			}
 
 			// Add newlines (1 for normal line break, more for vertical gaps)
 			for i := 0; i < gapInLines; i++ {
@@ -2231,6 +2238,11 @@ func (e *Extractor) extractPreserveLayout(fragments []text.TextFragment, pageWid
 			targetCol := int(frag.X / charWidth)
 			if targetCol < 0 {
 				targetCol = 0
+			}
+			// A fragment positioned beyond the right edge is put at the
+			// edge (positions are numbers written in the content stream).
+			if targetCol > charsPerLine {
+				targetCol = charsPerLine
 			}
 
 			// Add spaces to reach target column
